@@ -492,9 +492,10 @@ def load_database(dbpath, rootdir):
 
             entry["file"] = path
 
-            # Include paths may be specified relative to root
+            # Relative include paths are relative to the directory in
+            # which the compiler was run.
             entry["include_paths"] = [
-                os.path.abspath(os.path.join(rootdir, f))
+                os.path.abspath(os.path.join(filedir, f))
                 for f in entry["include_paths"]
             ]
 
